@@ -1,0 +1,77 @@
+//go:build verif
+
+package multisigsc
+
+// Machine-checked contracts for /verif/govc (contract-based deductive verification).
+// This file contains comments only; it is compiled only with -tags verif and adds no code.
+//
+// Multi-signature transfers (C21). A stored proposal carries the votes cast so far; the invariant
+// of every stored proposal (established by createProposal, preserved by vote - that is what is
+// proved here) is: one signature per signer id, no signer id twice.
+
+// (the two lists are separate allocations, as json decoding / the literals in createProposal make them)
+//@ spec votesOK(ids []string, sigs []string) bool = len(ids) == len(sigs) && (obj(ids) != obj(sigs) || cap(ids) == 0) && (forall i in 0..len(ids) :: forall j in i+1..len(ids) :: ids[i] != ids[j])
+
+//   $voteAuth   outcome of the last Wallet.isVoteAuthorized call (the signer is registered on the
+//               wallet and its signature over the voted transfer verifies)
+//@ ghost $voteAuth Bool
+
+// Trie I/O of the contract: trusted. A stored proposal satisfies the invariant above.
+//@ func (MultiSigSmartContract).pruneExpirationQueue
+//@   trusted
+//@   modifies $saved, $nsaved, $deleted
+//@ func (MultiSigSmartContract).prune
+//@   trusted
+//@   modifies $saved, $nsaved, $deleted
+//@ func (MultiSigSmartContract).getProposal
+//@   trusted
+//@   ensures result1 == nil ==> votesOK(result0.SignerThresholdIDs, result0.SignerSignatures)
+//@   modifies nothing
+//@ func (MultiSigSmartContract).createProposal
+//@   trusted
+//@   ensures result1 == nil ==> votesOK(result0.SignerThresholdIDs, result0.SignerSignatures) && len(result0.SignerThresholdIDs) == 0 && len(result0.SignerSignatures) == 0 && result0.ExecutedInTxnHash == "" && result0.ExpirationDate > now && result0.Transfer.ClientID == v.Transfer.ClientID && result0.Transfer.ClientID != ""
+//@   modifies $saved, $nsaved, $deleted
+//@ func (MultiSigSmartContract).getWallet
+//@   trusted
+//@   modifies nothing
+//@ func (MultiSigSmartContract).putProposal
+//@   trusted
+//@   modifies $saved, $nsaved, $deleted
+//@ func (Wallet).thresholdIdForSigner
+//@   trusted
+//@   modifies nothing
+//@ func (Wallet).isVoteAuthorized
+//@   trusted
+//@   ensures $voteAuth == result
+//@   modifies $voteAuth
+//@ func (Wallet).constructTransferSignature
+//@   trusted
+//@   modifies nothing
+//@ assume func encoding/json.Unmarshal
+//@   params data v
+//@   modifies payload(v).$all
+
+// Finding a proposal: an expired one is pruned and reported as an error, never returned; a missing
+// one is created with no votes.
+//@ func (MultiSigSmartContract).findOrCreateProposal
+//@   prop C21
+//@   ensures[never-expired] result1 == nil ==> now < result0.ExpirationDate
+//@   ensures[votes-wellformed] result1 == nil ==> votesOK(result0.SignerThresholdIDs, result0.SignerSignatures)
+//@   modifies $saved, $nsaved, $deleted
+
+// vote: the transfer is requested (AddSignedTransfer) only for a proposal that is not yet executed
+// and not expired, when the votes - one per distinct signer id, this vote included and authorised -
+// have reached the wallet's required number; every proposal that is stored keeps one vote per signer.
+//@ func (MultiSigSmartContract).vote
+//@   prop C21
+//@   at-call AddSignedTransfer assert[not-executed-before] p.ExecutedInTxnHash == ""
+//@   at-call AddSignedTransfer assert[not-expired] now < p.ExpirationDate
+//@   at-call AddSignedTransfer assert[enough-distinct-votes] len(p.SignerThresholdIDs) >= w.NumRequired && votesOK(p.SignerThresholdIDs, p.SignerSignatures)
+//@   at-call AddSignedTransfer assert[this-vote-authorised] $voteAuth && signerThresholdID != ""
+//@   at-call AddSignedTransfer assert[transfer-is-the-voted-one] $arg1.ClientID == v.Transfer.ClientID && $arg1.ToClientID == v.Transfer.ToClientID && $arg1.Amount == v.Transfer.Amount
+//@   at-call putProposal assert[vote-recorded-last] len(p.SignerThresholdIDs) >= 1 && len(p.SignerThresholdIDs) == len(p.SignerSignatures) && p.SignerThresholdIDs[len(p.SignerThresholdIDs)-1] == signerThresholdID
+//@   at-call putProposal assert[no-earlier-vote-of-this-signer] forall k in 0..len(p.SignerThresholdIDs)-1 :: p.SignerThresholdIDs[k] != signerThresholdID
+//@   at-call putProposal assert[one-vote-per-signer] forall i in 0..len(p.SignerThresholdIDs) :: forall j in i+1..len(p.SignerThresholdIDs) :: p.SignerThresholdIDs[i] != p.SignerThresholdIDs[j]
+//@   loop 1 header "for _, id := range p.SignerThresholdIDs"
+//@   loop 1 invariant forall k in 0..$idx+1 :: p.SignerThresholdIDs[k] != signerThresholdID
+//@   loop 1 invariant votesOK(p.SignerThresholdIDs, p.SignerSignatures) && p.ExecutedInTxnHash == "" && now < p.ExpirationDate && $voteAuth && signerThresholdID != ""
